@@ -11,6 +11,8 @@ for d in sorted(glob.glob(os.path.join(ROOT, "seeded", "C*_m*"))):
     res = []
     for k, v in det.items():
         res.append("%s: %s" % (k, ("caught, replay with failing input" if v["witness"] else "caught (no-failing-input-found)") if v["detected"] else "MISSED"))
+    if m.get("neutralised"):
+        res = ["neutralised by later fix: commits (no longer breaks the property; demo passes)"]
     def cell(x):
         return str(x).replace("|", "/").replace("\n", " ")[:260]
     print("| %s (%s) | %s | %s | %s |" % (name, ", ".join(m.get("files", []))[:80], cell(m.get("clause", "")), cell(m.get("needs", "")), "; ".join(res) or "not run yet"))
